@@ -30,6 +30,11 @@ type fragLoop struct {
 	rSlice bool
 	m      ssa.Value // loop-invariant cap
 	cond   ssa.Instruction
+	phi    *ssa.Phi  // the remaining amount inside the loop
+	c      ssa.Value // the amount consumed by one iteration
+	body   map[*ssa.BasicBlock]bool
+	sOr    []*ssa.BinOp // ORs of the start flag 0x80 / end flag 0x40 into a header octet of the fragment
+	eOr    []*ssa.BinOp
 }
 
 func isFragListType(t types.Type) bool {
@@ -173,7 +178,38 @@ func findFragLoops(fn *ssa.Function) []*fragLoop {
 			if _, isConst := m.(*ssa.Const); isConst {
 				continue // a constant chunk size is not an MTU-derived cap
 			}
-			fl := &fragLoop{head: h, pre: pre, r0: r0, rSlice: rSlice, m: m}
+			fl := &fragLoop{head: h, pre: pre, r0: r0, rSlice: rSlice, m: m, phi: phi, c: c, body: body}
+			for bb := range body {
+				for _, bi := range bb.Instrs {
+					or, ok := bi.(*ssa.BinOp)
+					if !ok || or.Op != token.OR {
+						continue
+					}
+					k, isC := core.ConstInt(or.Y)
+					if !isC {
+						k, isC = core.ConstInt(or.X)
+					}
+					if !isC || (k != 0x80 && k != 0x40) {
+						continue
+					}
+					stored := false
+					for _, ref := range *or.Referrers() {
+						if st, ok := ref.(*ssa.Store); ok && st.Val == ssa.Value(or) {
+							if _, ok := st.Addr.(*ssa.IndexAddr); ok {
+								stored = true
+							}
+						}
+					}
+					if !stored {
+						continue
+					}
+					if k == 0x80 {
+						fl.sOr = append(fl.sOr, or)
+					} else {
+						fl.eOr = append(fl.eOr, or)
+					}
+				}
+			}
 			for _, hi := range h.Instrs {
 				if iff, ok := hi.(*ssa.If); ok {
 					fl.cond = iff
@@ -206,11 +242,6 @@ func twoFragHooks(c *Ctx, seen map[*ssa.BasicBlock]bool) *bounds.Hooks {
 	cache := map[*ssa.Function][]*fragLoop{}
 	var mu sync.Mutex // entries are analysed in parallel
 	return &bounds.Hooks{AtInstr: func(h *bounds.Helper, fn *ssa.Function, in ssa.Instruction, d *bounds.Disjunct) {
-		switch in.(type) {
-		case *ssa.If, *ssa.Jump:
-		default:
-			return
-		}
 		mu.Lock()
 		loops, ok := cache[fn]
 		if !ok {
@@ -218,6 +249,12 @@ func twoFragHooks(c *Ctx, seen map[*ssa.BasicBlock]bool) *bounds.Hooks {
 			cache[fn] = loops
 		}
 		mu.Unlock()
+		fragFlagObligations(h, in, d, loops)
+		switch in.(type) {
+		case *ssa.If, *ssa.Jump:
+		default:
+			return
+		}
 		for _, fl := range loops {
 			if in.Block() != fl.pre {
 				continue
@@ -277,3 +314,101 @@ func mergeHooks(hs ...*bounds.Hooks) *bounds.Hooks {
 		},
 	}
 }
+
+// fragFlagObligations: "S only on the first and E only on the last fragment" (RFC 6184 5.8, RFC 7798 4.4.3)
+// for the fragment loops recognised above. The start flag (0x80) may be ORed into the fragment's header only
+// on a path on which the remaining amount still is what it was on entry; the end flag (0x40) only where this
+// iteration consumes all that remains; and a fragment emitted without the start flag is not the first one, one
+// emitted with neither flag is not the last one.
+func fragFlagObligations(h *bounds.Helper, in ssa.Instruction, d *bounds.Disjunct, loops []*fragLoop) {
+	for _, fl := range loops {
+		if len(fl.sOr) == 0 && len(fl.eOr) == 0 {
+			continue
+		}
+		if in.Block() == nil || !fl.body[in.Block()] {
+			continue
+		}
+		cur := func() *lin.Lin {
+			if fl.rSlice {
+				return d.Len(fl.phi)
+			}
+			return d.Int(fl.phi)
+		}
+		init := func() *lin.Lin {
+			if fl.rSlice {
+				return d.Len(fl.r0)
+			}
+			return d.Int(fl.r0)
+		}
+		switch x := in.(type) {
+		case *ssa.Store:
+			or, ok := x.Val.(*ssa.BinOp)
+			if !ok {
+				continue
+			}
+			for _, s := range fl.sOr {
+				if s == or {
+					r, r0 := cur(), init()
+					if r == nil || r0 == nil {
+						h.Oblige("the start flag is set on the first fragment only", false, "remaining amount not tracked")
+						continue
+					}
+					q := lin.EQ(r, r0)
+					h.Oblige("the start flag is set on the first fragment only", d.Entails(q...), d.Describe(q[0])+" ; "+d.Describe(q[1]))
+				}
+			}
+			for _, e := range fl.eOr {
+				if e == or && d.Has(fl.c) {
+					q := lin.EQ(cur(), d.Int(fl.c))
+					h.Oblige("the end flag is set on the last fragment only", d.Entails(q...), d.Describe(q[0])+" ; "+d.Describe(q[1]))
+				}
+			}
+		case *ssa.If:
+			// the complement ("no start flag => not the first fragment", "neither flag => not the last one") is
+			// decided at the test that guards the flag, where the path condition is still that of one path: the test
+			// must be an (in)equality whose two sides differ by exactly remaining - initial (start) or remaining -
+			// consumed (end), so that its other edge carries the disequality. A test of another form is reported as
+			// not decided; the flag's own obligation above still applies.
+			cmp, ok := x.Cond.(*ssa.BinOp)
+			for _, grp := range []struct {
+				ors   []*ssa.BinOp
+				what  string
+				start bool
+			}{{fl.sOr, "the start flag is set on every first fragment (its test is remaining == initial)", true}, {fl.eOr, "the end flag is set on every last fragment (its test is remaining == consumed)", false}} {
+				for _, o := range grp.ors {
+					side := -1
+					for si, sb := range x.Block().Succs {
+						if sb == o.Block() {
+							side = si
+						}
+					}
+					if side < 0 {
+						continue
+					}
+					if !ok || (cmp.Op != token.EQL && cmp.Op != token.NEQ) || !d.Has(cmp.X) && !isConstVal(cmp.X) || !d.Has(cmp.Y) && !isConstVal(cmp.Y) {
+						continue // another form of test: not decided here
+					}
+					r := cur()
+					var other *lin.Lin
+					if grp.start {
+						other = init()
+					} else if d.Has(fl.c) {
+						other = d.Int(fl.c)
+					}
+					if r == nil || other == nil {
+						continue
+					}
+					diff := d.Int(cmp.X).Sub(d.Int(cmp.Y))
+					target := r.Sub(other)
+					if !diff.Equal(target) && !diff.Equal(target.Scale(-1)) {
+						continue // not a comparison of the two quantities: not decided here
+					}
+					setOnEqual := (cmp.Op == token.EQL) == (side == 0)
+					h.ObligeAt(cmp, grp.what, setOnEqual, "the flag is set on the edge on which the two quantities differ")
+				}
+			}
+		}
+	}
+}
+
+func isConstVal(v ssa.Value) bool { _, ok := v.(*ssa.Const); return ok }
